@@ -326,6 +326,7 @@ fn judge_float<T: LFloat, const FMT: u128>(cx: &mut Cx, d: &Desc, spec: &WSpec, 
         viol(cx, "C17", "non-ascii-output", d, &sname, ty, vs.clone(), &out, String::new());
     }
     if cx.n % 2 == 0 || depth == Depth::Full {
+        guard::set_crumb(format!("to_string_with_options {} {ty} {vs} [{sname}]", d.name()).as_bytes());
         match report::catch(|| lexical::to_string_with_options::<T, FMT>(v, wopts)) {
             Ok(s) => {
                 if s.as_bytes() != &out[..] {
@@ -600,6 +601,7 @@ fn judge_int<T: LInt, const FMT: u128>(cx: &mut Cx, d: &Desc, v: T, full: bool) 
     if out.iter().any(|&b| b >= 0x80) {
         viol(cx, "C17", "non-ascii-output", d, "", ty, vs.clone(), &out, String::new());
     }
+    guard::set_crumb(format!("to_string_with_options {} {ty} {vs}", d.name()).as_bytes());
     match report::catch(|| lexical::to_string_with_options::<T, FMT>(v, &wopts)) {
         Ok(s) => {
             if s.as_bytes() != &out[..] {
@@ -971,6 +973,7 @@ where
     if out.iter().any(|&b| b >= 0x80) {
         viol(cx, "C17", "non-ascii-output", d, "default-api", ty, vs.clone(), &out, String::new());
     }
+    guard::set_crumb(format!("to_string {ty} {vs}").as_bytes());
     match report::catch(|| lexical::to_string(v)) {
         Ok(s) => {
             if s.as_bytes() != &out[..] {
